@@ -70,7 +70,11 @@ def gen_cases(ctx, n_scale=1.0):
         lattice = (k % 2 == 0)
         spec = scenes.collider_spec(rng, lattice, margin_prob=0.15)
         d = scenes.unit(rng, lattice) if rng.random() < 0.7 else scenes.vec(rng, True, 1.0) + np.array([0, 0, 1.0])
-        cases.append({"kind": "collider", "spec": spec, "dir": np.ascontiguousarray(d, dtype=float), "lattice": lattice})
+        case = {"kind": "collider", "spec": spec, "dir": np.ascontiguousarray(d, dtype=float), "lattice": lattice}
+        if k % 3 == 0 and spec[0] not in ("ConvexHullVertices",) and not (spec[0] == "Margin" and spec[1][0] == "ConvexHullVertices"):
+            # moved collider: update_pose with one matrix out of a C-contiguous pose stack before the queries
+            case["move_to"] = scenes.pose(rng, lattice, 2.0)
+        cases.append(case)
     # 3. narrow phase on pairs
     pair_fns = ["gjk", "gjk_intersection", "gjk_intersection_libccd", "gjk_distance_original",
                 "gjk_nesterov_accelerated_distance", "gjk_nesterov_accelerated_intersection",
@@ -171,6 +175,10 @@ def _run(case):
                                                       for a in case["args"]]))
     if k == "collider":
         c = scenes.build(case["spec"])
+        if case.get("move_to") is not None:
+            stack = np.zeros((3, 4, 4))
+            stack[1] = case["move_to"]
+            c.update_pose(stack[1])
         return _ser({"support": c.support_function(case["dir"]), "aabb": c.aabb(), "center": c.center(),
                      "first": c.first_vertex()})
     if k == "pair":
@@ -303,6 +311,13 @@ def compare(case, a, b):
         fn = case["fn"]
         L = 4.0
         if isinstance(oa, dict) and isinstance(ob, dict):
+            if fn == "epa" and ("epa_capacity_assert" in oa) != ("epa_capacity_assert" in ob):
+                # EPA's polytope-capacity assertion on smooth shapes is an allowed outcome (C07/C19); whether a run on a
+                # curved Minkowski difference reaches the capacity before it converges depends on last-bit differences
+                # of the support points (numpy BLAS vs numba), so the two engines may legitimately differ here.
+                polytopes = {"Box", "ConvexHullVertices", "MeshGraph"}
+                if case["c1"][0] not in polytopes or case["c2"][0] not in polytopes:
+                    return None
             if set(oa) != set(ob):
                 return "different result kinds %s vs %s" % (sorted(oa), sorted(ob))
             tol = {"gjk": 1e-5, "gjk_distance_original": 1e-3, "mpr_penetration": 2e-3, "epa": 1e-6}.get(fn, 1e-3) * L
@@ -374,7 +389,7 @@ def case_from_json(j):
             out[k] = scenes.spec_from_json(v)
         elif k == "args":
             out[k] = [np.array(a, dtype=float) if isinstance(a, list) else a for a in v]
-        elif k in ("dir", "pose", "points", "hp", "v", "n"):
+        elif k in ("dir", "pose", "points", "hp", "v", "n", "move_to"):
             out[k] = np.array(v, dtype=float)
         elif k == "dirs":
             out[k] = [np.array(a, dtype=float) for a in v]
